@@ -80,7 +80,12 @@ func (w c13Writer) Write(b []byte) (int, error) {
 }
 
 func c13NewNet(chain *c13kit.Chain, st c13kit.Strategy) *c13Net {
-	n := &c13Net{chain: chain, node: chain.NewNode(), events: make(chan c13Event, 4096), cur: map[int64]*c13Peer{},
+	return c13NewNetOn(chain, st, chain.NewNode())
+}
+
+// c13NewNetOn: the reactor starts from node.Genesis, the state the node loaded at boot.
+func c13NewNetOn(chain *c13kit.Chain, st c13kit.Strategy, node *c13kit.Node) *c13Net {
+	n := &c13Net{chain: chain, node: node, events: make(chan c13Event, 4096), cur: map[int64]*c13Peer{},
 		nextK: map[int64]int{}, strat: st}
 	n.bcR = NewBlockchainReactor(n.node.Genesis.Copy(), n.node.BlockExec, n.node.BlockStore, true)
 	n.bcR.SetLogger(log.NewNopLogger())
